@@ -143,7 +143,7 @@ def merge_correspondence(rep, tier, driver, cases, outs):
     except ImportError:
         rep.notes.append("merge model correspondence not available")
         return
-    mergex.run(rep, tier, driver, [c["iupac"] for c, o in zip(cases, outs) if o.get("smiles")])
+    mergex.run(rep, tier, driver, [c["iupac"] for c, o in zip(cases, outs) if o.get("smiles")], wellformed=True)
 
 
 def replay(body):
